@@ -23,6 +23,7 @@ size_t vp_stack_size = 256 * 1024;
 #ifdef VP_ASAN
 void __sanitizer_start_switch_fiber(void **fake_stack_save, const void *bottom, size_t size);
 void __sanitizer_finish_switch_fiber(void *fake_stack_save, const void **bottom_old, size_t *size_old);
+void *__asan_region_is_poisoned(void *beg, size_t size);
 #endif
 
 enum { CO_FREE, CO_RUNNABLE, CO_BLOCKED, CO_DONE };
@@ -46,6 +47,7 @@ static uint64_t (*state_fn)(void);
 int vp_sched_active;
 void (*vp_atomic_hook)(const volatile void *addr, int is_store, int mo);
 int (*vp_access_filter)(const volatile void *addr, int size, int is_write);
+uint64_t (*vp_value_canon)(uint64_t v);
 
 void vp_set_state_fn(uint64_t (*fn)(void)) { state_fn = fn; }
 int vp_co_self(void) { return cur; }
@@ -237,9 +239,16 @@ void vp_access(const volatile void *addr, int size, int is_write)
 	if ((const volatile void *)__errno_location() == addr) return;     /* thread-local */
 	if (vp_access_filter && !vp_access_filter(addr, size, is_write)) return;
 	reschedule(1, is_write ? "w" : "r");
+#ifdef VP_ASAN
+	/* the access is about to happen now: it must not hit memory that another coroutine freed meanwhile */
+	if (__asan_region_is_poisoned((void *)addr, (size_t)size))
+		vp_fail("%s %s %d bytes at %p: freed (or out-of-bounds) memory -- use after free in the instrumented unit",
+			vp_co_name(cur), is_write ? "writes" : "reads", size, (void *)addr);
+#endif
 	if (!is_write) {
 		uint64_t v = 0;
 		memcpy(&v, (const void *)addr, size > 8 ? 8 : size);
+		if (size == 8 && vp_value_canon) v = vp_value_canon(v);
 		vp_local_mix(v ^ ((uint64_t)size << 56));
 	} else vp_local_mix(0x77 + size);
 }
